@@ -2,7 +2,7 @@
 EXTENDS ChainDiag
 \* shapes <<M, N, V>> and negative numbers (cfg files cannot express sets of tuples / negative ints)
 ShapesQuick == {<<1, 4, 3>>, <<1, 5, 3>>, <<1, 6, 3>>, <<2, 4, 2>>}
-ShapesMid == {<<1, 7, 3>>, <<2, 4, 3>>, <<2, 5, 2>>, <<2, 6, 2>>, <<3, 4, 2>>, <<1, 5, 4>>}
+ShapesMid == {<<1, 7, 3>>, <<2, 4, 3>>, <<2, 5, 2>>, <<3, 4, 2>>, <<1, 5, 4>>}
 ShapesCov == {<<2, 2, 2>>}      \* tiny: the run with -coverage (action non-vacuity)
 ShapesNeg == {<<1, 4, 3>>, <<2, 4, 2>>}
 MCShifts == {-3, 5}
